@@ -165,6 +165,15 @@ func cmdRun(args []string) int {
 // at 1) in separate processes; event-log hashes and verdicts must agree.
 func cmdSelftest(args []string) int {
 	f := parseFlags(args)
+	if len(f.pos) >= 1 && f.pos[0] == "simnet" {
+		// fidelity of the simulated network: the same socket script on real loopback TCP and on simnet
+		out, err := runCmd(simDir(), nil, goBin, "test", "-vet=off", "-count=1", "-run", "TestConformance", "-v", "./simnet")
+		fmt.Print(out)
+		if err != nil {
+			return 1
+		}
+		return 0
+	}
 	if len(f.pos) < 1 || f.pos[0] != "determinism" {
 		usage()
 	}
